@@ -57,3 +57,13 @@ package resources
 //@ trusted
 //@ modifies s.current, s.currentVersionID
 //@ note trusted: loads the status from the metadata store on first use (retry loop over an external store)
+
+// Interface view for the controllers: when UpdateShardMetadata returns, a store of a
+// status carrying this shard metadata has been attempted (status.UpdateShardMetadata
+// proves that every attempt stores the updated private copy; whether the last attempt
+// succeeded is the open finding recorded for that function).
+//
+//@ func StatusResource.UpdateShardMetadata(recv, namespace, shard, shardMetadata)
+//@ trusted
+//@ modifies ghost(lastStoreTerm, recv)
+//@ ensures ghost(lastStoreTerm, recv) == shardMetadata.Term
